@@ -454,6 +454,10 @@ class Interp:
         if isinstance(container, SStr) or (isinstance(container, str)
                                            and isinstance(item, SStr)):
             return z3.Contains(TStr.unwrap(container), TStr.unwrap(item))
+        if isinstance(container, S.SSet):
+            return container.has(item)
+        if isinstance(container, SVal):
+            return S.py_in(container.t, S.box_any(item))
         if isinstance(container, SMap):
             return container.has(item)
         if type(container).__name__ == 'SMapCell':
@@ -664,7 +668,7 @@ class Interp:
         if r is not NotImplemented:
             return r
         if isinstance(obj, (str, SStr, tuple, list, dict, set, SSeq, MList,
-                            SMap, frozenset)):
+                            SMap, frozenset, S.SSet)):
             return BoundMethod(obj, name)
         if isinstance(obj, SVal):
             if name in self.world.opaque_attrs:
